@@ -51,7 +51,8 @@ class Harness:
         lines.append('stl.loop')
         for name, cells in self.variables:
             lines.append(f'{name}:')
-            lines.append(f'    {ns}.vec {cells}, 0')
+            decl_ns = 'bit' if self.var_bits[name] == 1 else 'hex'
+            lines.append(f'    {decl_ns}.vec {cells}, 0')
         if extra_decl:
             lines.append(extra_decl)
         for b in blocks:
